@@ -504,6 +504,15 @@ func genHist(stream string, seed uint64, n int) []GenCase {
 		c.Runs = []Run{{Obj: mkp(1, "a", "x"), Polls: defaultPolls}, {Obj: mkp(2, "b", "x", "y"), Polls: defaultPolls}, {Obj: mkp(2, "b", "x", "y"), Polls: defaultPolls},
 			{Obj: mkp(3, "c"), Polls: defaultPolls}, {Obj: mkp(1, "a", "z"), Polls: defaultPolls}}
 		out = append(out, GenCase{Case: c, Stream: stream, NonTrivial: true, Pair: "self", Role: "history"})
+		// ... and an object followed by NO object (nil), by an object of another shape with the same field
+		// names, by a map: nothing of the earlier object is seen again
+		c2 := Case{ID: fmt.Sprintf("%s-thennil-%d", stream, k), Opt: k%2 == 1, Fns: []HostFn{recFn()}, Tags: []string{"history", "object-then-nil"}, Show: []string{"fresh"}, Script: script}
+		c2.AddVar("seen", VInt(0))
+		other := HV{Kind: "struct", Fields: []HField{{"Count", true, HV{Kind: "str", S: "not a number"}}, {"Name", true, HV{Kind: "int", IntKind: "int", I: 9}}}}
+		asMap := HV{Kind: "map", ElemIface: true, KeyKind: "str", Entries: [][2]HV{{{Kind: "str", S: "Name"}, {Kind: "str", S: "from a map"}}}}
+		c2.Runs = []Run{{Obj: mkp(1, "a", "x"), Polls: defaultPolls}, {Obj: HV{Kind: "nil"}, Polls: defaultPolls}, {Obj: mkp(2, "b", "y"), Polls: defaultPolls}, {Obj: other, Polls: defaultPolls},
+			{Obj: asMap, Polls: defaultPolls}, {Obj: HV{Kind: "nil"}, Polls: defaultPolls}, {Obj: HV{Kind: "nilptr"}, Polls: defaultPolls}}
+		out = append(out, GenCase{Case: c2, Stream: stream, NonTrivial: true, Pair: "self", Role: "history"})
 	}
 	for k, pend := range []string{"return 100 + boom(1);", "return [1, 2, boom(1)];", "return helper2(7, 8, boom(1));", "x = {\"k\": boom(1)}; return x;", "return 100 + argc();", "return 100 + helper2(boom(1), 2, 3) + 5;"} {
 		for j, after := range []string{"x = print(Name); return x;", "if (printf(\"%s\", Name)) { return 1; } return 2;", "return rec(1) + 1;", "y = rec(2); return [y];"} {
@@ -567,6 +576,16 @@ func genCancel(stream string, seed uint64, n int) []GenCase {
 		for k := 0; k <= 60; k++ {
 			c := Case{ID: fmt.Sprintf("%s-%d", stream, id), Script: s, Opt: id%2 == 0, Fns: []HostFn{recFn()}, Tags: []string{"cancel-at-k"},
 				Runs: []Run{{Obj: stdObject(r), Polls: k}, {Obj: stdObject(r), Polls: 200}}}
+			id++
+			out = append(out, GenCase{Case: c, Stream: stream, NonTrivial: true, Role: "cancel"})
+		}
+	}
+	// a context that also has a deadline - far away - is cancelled like any other: what counts is Done()
+	for _, s := range []string{"x = 0; while (x < 40) { x++; rec(x); } return x;", "function f(n) { if (n == 0) { return 0; } rec(n); return f(n - 1); } return f(30);",
+		"foreach v in 1..30 { foreach w in [1, 2] { rec(v); } } return 1;", "rec(1); rec(2); rec(3); return 4;"} {
+		for k := 0; k <= 40; k += 3 {
+			c := Case{ID: fmt.Sprintf("%s-%d", stream, id), Script: s, Opt: id%2 == 0, Fns: []HostFn{recFn()}, Tags: []string{"cancel-at-k", "far-deadline"}, Show: []string{"fardeadline"},
+				Runs: []Run{{Obj: stdObject(r), Polls: k}, {Obj: stdObject(r), Polls: 2000}}}
 			id++
 			out = append(out, GenCase{Case: c, Stream: stream, NonTrivial: true, Role: "cancel"})
 		}
@@ -775,6 +794,18 @@ func genApi(stream string, seed uint64, n int) []GenCase {
 			out = append(out, GenCase{Case: c, Stream: stream, NonTrivial: true, Role: "api"})
 		}
 	}
+	// AddFunction between runs, without a new Prepare: the next run calls what is registered NOW - also for a
+	// name the script has already called, also for the name of a built-in, also a function added for the first time
+	for j, script := range []string{"return k0();", "x = k0(); y = k0(); return [x, y, late()];", "return [len(\"abc\"), k0()];", "function w() { return k0(); } return w();", "if (k0() == 7) { return first(1, 2); } return first(3, 4);"} {
+		c := Case{ID: fmt.Sprintf("%s-%d", stream, id), Script: script, Opt: j%2 == 0, Show: []string{"runbool", "spec"}, Tags: []string{"api:function", "add-function-between-runs"},
+			Fns: []HostFn{{Name: "k0", Kind: "const", V: VInt(7)}, {Name: "first", Kind: "arg", I: 0}, {Name: "late", Kind: "const", V: VNull()}, recFn()}}
+		o := stdObject(r)
+		c.Runs = []Run{{Obj: o, Polls: defaultPolls}, {Obj: o, Polls: defaultPolls, Fns: []HostFn{{Name: "k0", Kind: "const", V: VInt(8)}}},
+			{Obj: o, Polls: defaultPolls, Fns: []HostFn{{Name: "first", Kind: "arg", I: 1}, {Name: "len", Kind: "const", V: VInt(-1)}, {Name: "late", Kind: "const", V: VStr("now")}}},
+			{Obj: o, Polls: defaultPolls}, {Obj: o, Polls: defaultPolls, Fns: []HostFn{{Name: "k0", Kind: "const", V: VStr("nine")}}}}
+		id++
+		out = append(out, GenCase{Case: c, Stream: stream, NonTrivial: true, Role: "api"})
+	}
 	// a host variable that happens to be called OPTIMIZE (the name Prepare uses internally as a signal to
 	// the VM): NoOptimize must still decide alone whether the code is optimised, and the host's value must
 	// be what the script and GetVariable see
@@ -967,6 +998,30 @@ func genRefl(stream string, seed uint64, n int) []GenCase {
 			// each run sees the object passed to that run, not an earlier one
 			c.Runs = append(c.Runs, Run{Obj: HV{Kind: "struct", Fields: []HField{{"F0", true, HV{Kind: "str", S: "other object"}}}}, Polls: defaultPolls})
 			c.Runs = append(c.Runs, Run{Obj: HV{Kind: "nil"}, Polls: defaultPolls})
+			id++
+			out = append(out, GenCase{Case: c, Stream: stream, NonTrivial: true})
+		}
+	}
+	// fields whose Go types are DEFINED types over the basic kinds (type Level string, type Code int, ...), in a
+	// struct, behind a pointer, inside an interface, as values of a JSON-shaped map: the same values to a script
+	{
+		named := []HField{{"Level", true, HV{Kind: "str", S: "warn", Named: true}}, {"Code", true, HV{Kind: "int", IntKind: "int", I: 404, Named: true}},
+			{"Big", true, HV{Kind: "int", IntKind: "int64", I: 9007199254740993, Named: true}}, {"Ratio", true, HV{Kind: "f64", F: 0.25, Named: true}},
+			{"On", true, HV{Kind: "bool", B: true, Named: true}}, {"Plain", true, HV{Kind: "str", S: "plain"}},
+			{"Boxed", true, HV{Kind: "iface", To: &HV{Kind: "str", S: "boxed", Named: true}}}}
+		st := HV{Kind: "struct", Fields: named}
+		var ents [][2]HV
+		for _, f := range named {
+			v := f.V
+			if v.Kind == "iface" {
+				v = *v.To
+			}
+			ents = append(ents, [2]HV{{Kind: "str", S: f.Name}, v})
+		}
+		for _, s := range []string{"return [Level, Code, Big, Ratio, On, Plain, Boxed];", "return Level == \"warn\" && Code == 404 && On;", "return [type(Level), type(Code), type(Ratio), type(On), len(Level), Code + 1, Ratio * 2];",
+			"return Plain;", "if (Level ~= /^w/) { return Code; } return 0;"} {
+			c := Case{ID: fmt.Sprintf("%s-%d", stream, id), Script: s, Opt: id%2 == 0, Tags: []string{"reflect", "named-types"}}
+			c.Runs = []Run{{Obj: st, Polls: defaultPolls}, {Obj: HV{Kind: "ptr", To: &st}, Polls: defaultPolls}, {Obj: HV{Kind: "map", ElemIface: true, KeyKind: "str", Entries: ents}, Polls: defaultPolls}}
 			id++
 			out = append(out, GenCase{Case: c, Stream: stream, NonTrivial: true})
 		}
